@@ -292,9 +292,12 @@ class Runner:
                     else:
                         still.append((p, w, a, b, base, t0, tmo))
                         continue
-                out = open(base + '.out').read().split('\n')
+                raw = open(base + '.out').read()
+                out = raw.split('\n')
                 if out and out[-1] == '':
                     out.pop()
+                elif out and (rc != 0 or timed_out):
+                    out.pop()      # the worker died while writing this line: it is not a result
                 errsz = os.path.getsize(base + '.err')
                 if errsz:
                     self.stderr_bytes[w] = self.stderr_bytes.get(w, 0) + errsz
